@@ -30,6 +30,7 @@
   configuration read from the source that is in /repo now is `Sound`, and the `…_current` corollaries instantiate it.
 -/
 import CelloProofs.Lemmas.HdrType
+import CelloProofs.Lemmas.HdrSlots
 
 namespace Cello.Hdr
 
@@ -1225,5 +1226,114 @@ example :
     let s := run Config.current St.init ops
     s.freed = [0, 1, 2, 3, 5, 6, 7, 8, 9] ∧ s.reg = [] ∧ s.pending = [] ∧ s.isLive 4 = true := by
   decide
+
+/-! ## H. the slot level of Array, and the block arithmetic of births and releases (extension round)
+
+  Sections B–G keep an Array as the list of its elements, each built *with* its header.  Here the storage is what
+  src/Array.c works on — `nslots` slots, the first `nitems` of them elements, a slot holding whatever was last written to
+  it — and the size-changing functions are the statement lists the translator reads from the source
+  (`CelloGen.Hdr.arrayProgs`, run by `Cello.HdrSlots.runOp`). -/
+
+open Cello.HdrSlots in
+/-- **the size-changing functions of src/Array.c, as they are in /repo now**: Array_Push, Array_Push_At, Array_Pop,
+    Array_Pop_At, Array_Concat, Array_Resize and the fill loops of Array_New / Array_Assign are these statements in this
+    order; `Array_Alloc` zeroes the slot and writes the header at its start; the capacity policy is "grow to
+    nitems + nitems/2 when nitems > nslots, shrink to nitems when nslots > nitems + nitems/2".  A moved, dropped or added
+    statement (an `Array_Alloc` that is skipped for some index, a bounds test after `nitems++`, a `memmove` after the
+    `Array_Alloc`) changes the generated list and breaks this theorem. -/
+theorem C19_array_programs_current : ArraySrc :=
+  ⟨by rfl, by decide, by decide, by decide⟩
+
+open Cello.HdrSlots in
+/-- **every element of an Array carries the element type, the class `data` and the magic number — at the slot level, for
+    every history**: starting from an empty Array, after any sequence of push, push_at (any index, negative ones and
+    index == len included), pop, pop_at, concat (any number of items), resize (to 0, shrinking, same size, growing into slots
+    that were never used) and assign-from-n-items, run as the statements of src/Array.c, every slot below `nitems` holds
+    exactly the header `header_init(head, a->type, AllocData)` writes, `type_of` recovers the element type from it, and
+    `nitems ≤ nslots` (no element lies outside the storage).  Stale headers of popped elements and never-written slots
+    exist in the model (`Slot.junk`); none of them is ever an element. -/
+theorem C19_array_slots_carry_headers (cfg : Config) (hs : cfg.Sound = true) (ety : Ty) (ops : List AOp) :
+    let a := runOps (arrayHeader cfg ety) cfg.magic Arr.empty ops
+    a.nitems ≤ a.nslots ∧
+    (∀ j, j < a.nitems → a.slot j = .hdr (arrayHeader cfg ety)) ∧
+    typeOf cfg (arrayHeader cfg ety) = some ety ∧ (arrayHeader cfg ety).alloc = cfg.cData ∧
+    a.badCount cfg.magic = 0 := by
+  have F := facts_of_sound hs
+  have hg : (arrayHeader cfg ety).magic = cfg.magic := by simp [arrayHeader, headerInit_eq F]
+  have hgood := runOps_good C19_array_programs_current (arrayHeader cfg ety) cfg.magic hg ops Arr.empty (good_empty _)
+  refine ⟨hgood.1, hgood.2, ?_, ?_, good_badCount _ _ hg _ hgood⟩
+  · simp [arrayHeader, headerInit_eq F, typeOf]
+  · simp [arrayHeader, headerInit_eq F, F.bArray]
+
+open Cello.HdrSlots in
+/-- **no operation of such a history meets a slot without a header or leaves the storage; a refused one changes nothing**:
+    each call ends normally, or raises (IndexOutOfBoundsError) with the storage exactly as it was. -/
+theorem C19_array_ops_end_well (cfg : Config) (hs : cfg.Sound = true) (ety : Ty) (ops : List AOp) (op : AOp) :
+    let a := runOps (arrayHeader cfg ety) cfg.magic Arr.empty ops
+    let r := runOp (arrayHeader cfg ety) cfg.magic a op
+    r.2 = .ok ∨ ∃ e, r.2 = .raised e ∧ r.1 = a := by
+  have F := facts_of_sound hs
+  have hg : (arrayHeader cfg ety).magic = cfg.magic := by simp [arrayHeader, headerInit_eq F]
+  have hgood := runOps_good C19_array_programs_current (arrayHeader cfg ety) cfg.magic hg ops Arr.empty (good_empty _)
+  exact (runOp_good C19_array_programs_current _ _ hg _ hgood op).2
+
+open Cello.HdrSlots CelloGen.Hdr in
+/-- non-vacuity, and the history-dependence seeds c19_i / c19_l / c19_m live on: with the programs of the current source a
+    push_at at index == len lands on a fresh slot and is fine; with `Array_Alloc(self, i)` taken out of Array_Push_At the very
+    same call meets a slot without a header when the slot was never used — and goes unnoticed when the slot still holds
+    the stale header of a popped element. -/
+example :
+    let g := arrayHeader Config.current .int
+    let mg := Config.current.magic
+    let noAlloc : List AEv := [.idx, .norm true, .chk .ins "IndexOutOfBoundsError", .inc, .more, .up, .assign .i]
+    let pushAtWith (p : List AEv) (a : Arr) (key : Int) := finish (runEvs g mg p (M.start a key 0 0))
+    -- the current source: empty Array, push_at(.., 0); three elements, push_at(.., 3) and push_at(.., -1)
+    (runOp g mg Arr.empty (.pushAt 0)).2 = .ok ∧
+    (runOp g mg (runOps g mg Arr.empty [.push, .push, .push]) (.pushAt 3)).2 = .ok ∧
+    (runOp g mg (runOps g mg Arr.empty [.push, .push, .push]) (.pushAt (-1))).2 = .ok ∧
+    (runOp g mg (runOps g mg Arr.empty [.push, .push, .push]) (.pushAt 4)).2 = .raised "IndexOutOfBoundsError" ∧
+    -- without the Array_Alloc: a never-used slot …
+    (pushAtWith noAlloc Arr.empty 0).2 = .badHeader ∧
+    (pushAtWith noAlloc (runOps g mg Arr.empty [.push, .push, .push]) 3).2 = .badHeader ∧
+    -- … an interior index, and a slot that keeps the header of a popped element
+    (pushAtWith noAlloc (runOps g mg Arr.empty [.push, .push, .push]) 1).2 = .ok ∧
+    (pushAtWith noAlloc (runOps g mg Arr.empty [.push, .push, .push, .pop]) 2).2 = .ok := by
+  refine ⟨by decide, by decide, by decide, by decide, by decide, by decide, by decide, by decide⟩
+
+open Cello.HdrSlots CelloGen.Hdr in
+/-- **the stack births**: `alloc_stack(T)` hands `header_init` a zeroed compound literal of `sizeof(struct Header) +
+    sizeof(struct T)` bytes; `header_init` returns the address just past the header; `$(T, ..)` copies `sizeof(struct T)`
+    bytes there — for every struct size the copy starts exactly where the header ends (the three header words are not
+    overwritten) and ends exactly where the literal ends; `$I $F $S $R $B` and `tuple(..)` are `$` at Int, Float, String, Ref,
+    Box and Tuple; `header(self)` undoes what `header_init` added.  All read from the macro texts. -/
+theorem C19_stack_birth_block (structT : Nat) :
+    (dollarWrites structT).1 = 8 * headerFields.length ∧
+    (dollarWrites structT).2 = szSum structT 0 allocStackBuf ∧
+    szSum structT 0 headerBack = szSum structT 0 headerInitReturns ∧
+    dollarShortForms = [("I", "Int"), ("F", "Float"), ("S", "String"), ("R", "Ref"), ("B", "Box"), ("tuple", "Tuple")] := by
+  refine ⟨?_, ?_, ?_, by decide⟩ <;>
+    simp [dollarWrites, szSum, SzTerm.eval, headerInitReturns, dollarCopies, allocStackBuf, headerBack, headerFields]
+
+open Cello.HdrSlots CelloGen.Hdr in
+/-- **the poison pattern of `dealloc`**: for an object `alloc_by` made for a type of `sz` bytes, the fill loop writes
+    `(sizeof(struct Header) + sz) / sizeof(var)` words from `header(self)` = the start of the `calloc`ed block: never beyond
+    the block, the whole block when `sz` is a multiple of the word size, and always every header word — so `type_of` on the
+    released object meets `deadMagic` (`Type_Of`'s first magic test) whatever the type's size, 0 included; `free` gets the
+    start of the block. -/
+theorem C19_dealloc_fill_stays_in_block (sz : Nat) :
+    deallocFillWords sz * 8 ≤ szSum 0 sz allocByBlock ∧
+    (sz % 8 = 0 → deallocFillWords sz * 8 = szSum 0 sz allocByBlock) ∧
+    (∀ f w, headerWord f = some w → w < deallocFillWords sz) ∧
+    headerWord "magic" = some 2 ∧
+    deallocFreeOffset = 0 := by
+  have hb : szSum 0 sz allocByBlock = 24 + sz := by simp [szSum, SzTerm.eval, allocByBlock, headerFields]
+  have hf : deallocFillWords sz = (24 + sz) / 8 := by simp [deallocFillWords, szSum, SzTerm.eval, deallocFillBytes, headerFields]
+  refine ⟨by rw [hb, hf]; omega, fun h => by rw [hb, hf]; omega, ?_, by decide, by decide⟩
+  intro f w hw
+  have : w < 3 := by
+    have := List.findIdx?_eq_some_iff_getElem.mp hw
+    obtain ⟨h1, _⟩ := this
+    simpa [headerFields] using h1
+  rw [hf]; omega
 
 end Cello.Hdr
